@@ -298,7 +298,7 @@ var faultMethods = map[string][]string{
 	"Poll":            {"GetDeviceAuthorizatonState", "CreateAccessToken", "CreateAccessAndRefreshTokens", "SigningKey"},
 	"ClientCreds":     {"ClientCredentials", "ClientCredentialsTokenRequest", "CreateAccessToken", "SigningKey"},
 	"JWTBearer":       {"GetKeyByIDAndClientID", "ValidateJWTProfileScopes", "CreateAccessToken"},
-	"TokenExchange":   {"ValidateTokenExchangeRequest", "CreateTokenExchangeRequest", "CreateAccessToken", "CreateAccessAndRefreshTokens", "SigningKey", "TokenRequestByRefreshToken"},
+	"TokenExchange":   {"ValidateTokenExchangeRequest", "CreateTokenExchangeRequest", "CreateAccessToken", "CreateAccessAndRefreshTokens", "SigningKey", "TokenRequestByRefreshToken", "GetPrivateClaimsFromTokenExchangeRequest", "SetUserinfoFromTokenExchangeRequest"},
 	"EndSession":      {"TerminateSession", "GetClientByClientID", "KeySet"},
 }
 
@@ -551,7 +551,7 @@ func (g *gen) next() (string, M) {
 		if d.Cfg.Dyn && g.rng.Intn(3) == 0 {
 			host = "B"
 		}
-		return "EndSession", M{"hint": hint, "client": g.pick("", "", "cw", "cx", "cj"), "uri": g.pick("", "plcw", "plcx", "plcj", "evil", "plcwG", "ucwG", "plcxNear"), "state": g.pick("", "ls1", "l s+2&="), "host": host}
+		return "EndSession", M{"hint": hint, "client": g.pick("", "", "cw", "cx", "cj", "cn"), "uri": g.pick("", "plcw", "plcx", "plcj", "evil", "plcwG", "ucwG", "plcxNear", "plcn", "plcnEvil"), "state": g.pick("", "ls1", "l s+2&="), "host": host}
 	}
 }
 
